@@ -29,6 +29,34 @@ func (v vU64) ChildStorables() []Storable                            { return ni
 func (v vU64) CanCopyNonRefSimple() bool                             { return true }
 func (v vU64) CopyNonRefSimple() (Storable, error)                   { return v, nil }
 
+// vU64 is also a comparable storable, so it can be a key of compact
+// (same-typed composite) inlined maps.
+var _ ComparableStorable = vU64(0)
+
+func (v vU64) Equal(o Storable) bool { x, ok := o.(vU64); return ok && x == v }
+func (v vU64) Less(o Storable) bool  { x, ok := o.(vU64); return ok && v < x }
+func (v vU64) ID() string            { return vhItoa(uint64(v)) }
+
+func vhItoa(n uint64) string {
+	if n == 0 {
+		return "0"
+	}
+	var b []byte
+	for n > 0 {
+		b = append([]byte{byte('0' + n%10)}, b...)
+		n /= 10
+	}
+	return string(b)
+}
+
+// vCompositeTypeInfo: composite type information (inlined maps of this type
+// with identical key sets share the compact encoding). Encoded as id+1000.
+type vCompositeTypeInfo struct{ id uint64 }
+
+func (t vCompositeTypeInfo) Encode(enc *cbor.StreamEncoder) error { return enc.EncodeUint64(t.id + 1000) }
+func (t vCompositeTypeInfo) IsComposite() bool                    { return true }
+func (t vCompositeTypeInfo) Copy() TypeInfo                       { return t }
+
 // vBlob encodes as a CBOR byte string of n zero bytes (large values).
 type vBlob struct{ n int }
 
